@@ -29,8 +29,64 @@ def decoration_cases():
             obs = "TypeError"
         except Exception as e:  # noqa: BLE001
             obs = type(e).__name__
-        out.append({"id": f"dec-{row}", "row": row, "obs": obs})
-    return out
+        out.append({"id": f"dec-{row}", "kind": "decoration", "row": row, "obs": obs})
+    return out + failing_factory_cases()
+
+
+def failing_factory_cases():
+    """A matching factory that itself raises: the decorated call must end like the explicit lookup (for optional markers too)."""
+    import anyio
+    from asphalt.core import Context, ResourceNotFound, get_resource, get_resource_nowait, inject, resource
+    from .. import vclock
+
+    class Dep:
+        pass
+
+    rows = []
+
+    async def main():
+        for exc_name, exc in (("ResourceNotFound", lambda: ResourceNotFound(Dep, "default")), ("KeyError", lambda: KeyError("k"))):
+            for fac_kind in ("sync", "async"):
+                def sync_factory(exc=exc):
+                    raise exc()
+
+                async def async_factory(exc=exc):
+                    await anyio.sleep(0)
+                    raise exc()
+                for fn_kind in ("sync", "async"):
+                    if fn_kind == "sync" and fac_kind == "async":
+                        continue
+                    for opt in (False, True):
+                        ann = (Dep | None) if opt else Dep
+                        if fn_kind == "sync":
+                            def f(*, dep=resource()):
+                                return "body ran with " + type(dep).__name__
+                        else:
+                            async def f(*, dep=resource()):
+                                return "body ran with " + type(dep).__name__
+                        f.__annotations__ = {"dep": ann}
+                        g = inject(f)
+                        outcomes = []
+                        for decorated in (True, False):
+                            async with Context() as ctx:
+                                ctx.add_resource_factory(sync_factory if fac_kind == "sync" else async_factory, types=[Dep])
+                                try:
+                                    if decorated:
+                                        r = g()
+                                        if hasattr(r, "__await__"):
+                                            r = await r
+                                    elif fn_kind == "sync":
+                                        r = "body ran with " + type(get_resource_nowait(Dep, optional=opt)).__name__
+                                    else:
+                                        r = "body ran with " + type(await get_resource(Dep, optional=opt)).__name__
+                                    outcomes.append(r)
+                                except Exception as e:  # noqa: BLE001
+                                    outcomes.append("raised " + type(e).__name__)
+                        row = f"failing-factory:{exc_name}:{fac_kind}-factory:{fn_kind}-function:{'optional' if opt else 'required'}"
+                        rows.append({"id": "diff-" + row, "kind": "differential", "row": row,
+                                     "obs": "same" if outcomes[0] == outcomes[1] else f"decorated {outcomes[0]} / explicit {outcomes[1]}"})
+    vclock.run(main, backend="asyncio", seed=0)
+    return rows
 
 
 def run(tier, seed):
